@@ -10,7 +10,7 @@
              MB.n  ME.n.(m|s|c)  RT.b
      mode  : g|t|r, followed by m when the destination is a Mounter and MountFrom is set
              kind: pre post skip mounted mountfrom
-   output: <id> ACC ret=<1|0|-> tag=<n|-> dst=<ids> cr=<ids|-> ms=<max src reads in flight> md=<max dst ops in flight>
+   output: <id> ACC ret=<1|0|-> tag=<n|-> dst=<ids> cr=<ids|-> ms=<max src reads in flight> md=<max dst ops in flight>  (both '-' unless ret=1)
         or <id> REJ <index> <token>  (first event the transition system refuses) *)
 let z_of_int i = if i = 0 then Z0 else if i > 0 then Zpos (pos_of_int i) else Zneg (pos_of_int (-i))
 let ints s = if s = "-" || s = "" then [] else List.map int_of_string (String.split_on_char ',' s)
@@ -101,7 +101,8 @@ let () =
           let tg = match st.tag with Some t -> string_of_int (int_of_nat t) | None -> "-" in
           let pres d = sort_uniq_ints (List.map int_of_nat (present_nodes g d)) in
           let cr = if ret = "1" then show_ints (pres (copy_result g d0 (nat_of_int (n + 1)) (nat_of_int root))) else "-" in
-          Printf.printf "%s ACC ret=%s tag=%s dst=%s cr=%s ms=%d md=%d\n" id ret tg (show_ints (pres st.dst)) cr !ms !md
+          let gauges = if ret = "1" then Printf.sprintf "ms=%d md=%d" !ms !md else "ms=- md=-" in
+          Printf.printf "%s ACC ret=%s tag=%s dst=%s cr=%s %s\n" id ret tg (show_ints (pres st.dst)) cr gauges
       with Failure m -> Printf.printf "%s BAD %s\n" id m)
     | [] -> ()
     | _ -> Printf.printf "BADLINE %s\n" l)
